@@ -31,6 +31,7 @@ LEVEL_TEXT = ('Deviation-bounded exhaustive exploration of every freedom a confo
 LEVEL_NOTE = ('trusted: mc/ref/boc.py encoder (self-consistent with the strict decoder which accepts a node-written block); stored hashes only for '
               'level masks 0,1,3,7 where TON writer and reader agree on the count')
 TECHNIQUE = 'deviation-bounded exhaustive enumeration of valid encodings plus exhaustive single-fault corruption, against a reference codec'
+RULE += ' Reference graph: EVERY DAG shape with <= 4 cells (thorough: also 5 cells with <= 1 reference each) x EVERY linear extension x EVERY reference slot set to EVERY other index value 0..n+1 and 255, with and without (recomputed) CRC: self / backward (to a leaf or not) / dangling must raise; another forward index gives another bag - if the strict reference decoder accepts it the parser must return what it denotes.'
 ASSUMPTIONS = ['encodings with more than k simultaneous non-default choices are not explored (except the full product on the 2-cell DAG)']
 NOT_ASSERTED = ['rejection of bit flips in input that carries no CRC', 'absent cells > 0', 'stored-hash layout for level masks with gaps (TON writer/reader disagree)']
 
